@@ -235,11 +235,42 @@ func (x *exec) mapDelete(st *State, mt *types.Map, m Term, k Term) {
 }
 
 func (x *exec) mapLen(st *State, mt types.Type, m Term) Term {
-	x.ctx.declareFun("card", []Sort{ArrSort(SInt, SBool)}, SInt)
+	x.useSetLib()
 	has := x.mapHas(st, mt, m)
 	c := app(SInt, "card", has)
-	st.assume(Ge(c, Zero))
+	st.assume(And(Ge(c, Zero), Le(c, BigLit(p2(48)))))
 	return c
+}
+
+// useSetLib declares the finite-set library (T-set): card(S) and cntv(V, S) = |{k in S | V[k]}|.
+func (x *exec) useSetLib() {
+	c := x.ctx
+	if c.setLib {
+		return
+	}
+	c.setLib = true
+	bs := ArrSort(SInt, SBool)
+	c.declareFun("card", []Sort{bs}, SInt)
+	c.declareFun("cntv", []Sort{bs, bs}, SInt)
+	c.declareFun("wv", []Sort{bs, bs}, SInt)
+	ax := func(s string) { c.Axioms = append(c.Axioms, Term{s, SBool}) }
+	empty := "((as const (Array Int Bool)) false)"
+	ax("(= (card " + empty + ") 0)")
+	ax("(forall ((S (Array Int Bool))) (! (>= (card S) 0) :pattern ((card S))))")
+	ax("(forall ((S (Array Int Bool)) (k Int)) (! (=> (not (select S k)) (= (card (store S k true)) (+ (card S) 1))) :pattern ((card (store S k true)))))")
+	ax("(forall ((S (Array Int Bool)) (k Int)) (! (=> (select S k) (= (card (store S k false)) (- (card S) 1))) :pattern ((card (store S k false)))))")
+	ax("(forall ((S (Array Int Bool)) (k Int)) (! (=> (select S k) (= (card (store S k true)) (card S))) :pattern ((card (store S k true)))))")
+	ax("(forall ((S (Array Int Bool)) (k Int)) (! (=> (not (select S k)) (= (card (store S k false)) (card S))) :pattern ((card (store S k false)))))")
+	ax("(forall ((V (Array Int Bool))) (! (= (cntv V " + empty + ") 0) :pattern ((cntv V " + empty + "))))")
+	ax("(forall ((V (Array Int Bool)) (S (Array Int Bool))) (! (and (<= 0 (cntv V S)) (<= (cntv V S) (card S))) :pattern ((cntv V S))))")
+	ax("(forall ((V (Array Int Bool)) (S (Array Int Bool)) (k Int)) (! (=> (not (select S k)) (= (cntv V (store S k true)) (+ (cntv V S) (ite (select V k) 1 0)))) :pattern ((cntv V (store S k true)))))")
+	ax("(forall ((V (Array Int Bool)) (S (Array Int Bool)) (k Int)) (! (=> (select S k) (= (cntv V (store S k true)) (cntv V S))) :pattern ((cntv V (store S k true)))))")
+	ax("(forall ((V (Array Int Bool)) (S (Array Int Bool)) (k Int)) (! (=> (select S k) (= (cntv V (store S k false)) (- (cntv V S) (ite (select V k) 1 0)))) :pattern ((cntv V (store S k false)))))")
+	ax("(forall ((V (Array Int Bool)) (S (Array Int Bool)) (k Int)) (! (=> (not (select S k)) (= (cntv V (store S k false)) (cntv V S))) :pattern ((cntv V (store S k false)))))")
+	ax("(forall ((V (Array Int Bool)) (S (Array Int Bool)) (k Int) (b Bool)) (! (= (cntv (store V k b) S) (+ (cntv V S) (ite (select S k) (- (ite b 1 0) (ite (select V k) 1 0)) 0))) :pattern ((cntv (store V k b) S))))")
+	ax("(forall ((V (Array Int Bool)) (S (Array Int Bool))) (! (=> (> (cntv V S) 0) (and (select S (wv V S)) (select V (wv V S)))) :pattern ((cntv V S))))")
+	ax("(forall ((V (Array Int Bool)) (S (Array Int Bool)) (k Int)) (! (=> (and (select S k) (select V k)) (>= (cntv V S) 1)) :pattern ((cntv V S) (select S k))))")
+	c.note("T-set: finite-set library (card, cntv: 15 axioms over Array Int Bool)")
 }
 
 func constArray(sort Sort, v Term) Term {
@@ -251,7 +282,5 @@ func (x *exec) makeMap(st *State, mt *types.Map) Term {
 	hk := mapKey(mt, "has")
 	harr := x.getHeap(st, hk, ArrSort(SInt, ArrSort(SInt, SBool)))
 	x.setHeap(st, hk, Store(harr, ref, constArray(ArrSort(SInt, SBool), False)), &ref)
-	x.ctx.declareFun("card", []Sort{ArrSort(SInt, SBool)}, SInt)
-	st.assume(Eq(app(SInt, "card", constArray(ArrSort(SInt, SBool), False)), Zero))
 	return ref
 }
